@@ -118,7 +118,6 @@ NShut(i, how) ==
   /\ NAnswer("shut", [i |-> i, how |-> how], "ok", {}, {}, <<>>)
 NConn(i) ==
   /\ i \in reg /\ Lsn(ik[i]) /\ nin + conn[i] < MaxIn
-  /\ ik[i] = "o" => conn[i] = 0                     \* a single-connection listener has no backlog
   /\ conn' = Upd(conn, i, conn[i] + 1)
   /\ UNCHANGED <<att, nin, ik, reg, was, rel, wire, eof, buf, sent, last, peek, wait, cur>>
   /\ DQuiet
@@ -271,7 +270,7 @@ NNext ==
   \/ "refuse" \in Ops /\ ((\E j \in reg : NAddSame(j)) \/ NAddBad)
   \/ \E i \in reg, id \in MsgIds : NSend(i, <<id, i, sent[i] + 1>>)
   \/ \E i \in reg, how \in Hows : NShut(i, how)
-  \/ \E i \in reg : NConn(i)
+  \/ \E i \in reg : (ik[i] = "o" => conn[i] = 0) /\ NConn(i)    \* a single-connection listener has no backlog
   \/ \E what \in Whats : \E rvs \in RvChoices(what) : NWait(what, rvs, << >>)
   \/ \E i \in wait \cup {0} : NPop(i)
   \/ \E hr \in HRs : NHand(hr)
